@@ -9,7 +9,8 @@ C01 FROM FILE TO FILE, second part (continues `Props/C01File.lean`):
       - no decrypted record longer than 65495 bytes (`RecordsFit`; RFC: 2^14 + 1),
       - every packet time below 2^64 µs (stated on the capture: `CapEv.us`, the IEEE-754 residue of C12),
       - `OthersFit`: whatever the OTHER sessions of the capture export also fits (true in particular when they export
-        nothing).
+        nothing; `othersFit_of_ignored`: when the loop ignores every foreign packet).
+  * THE KEY LOG AS FILE TEXT: `tls12_capture_exact_text`, `tls13_capture_exact_text` (via `Props/C09Found.lean`).
 -/
 import TLX.Props.C01File
 import TLX.Lemmas.BuildBounds
@@ -551,6 +552,111 @@ theorem tls13_capture_exact_text (mask : Quic.Dissect.MaskFn) (H : Crypto.Prims)
       Exact f (sessionOf (evs.map CEv.cap) (optsOf args ports pm) p0 rest)
         (Spec.TlsConnection.plainOf t.cEvs) (Spec.TlsConnection.plainOf t.sEvs) :=
   tls13_capture_exact_file mask H P L fl hne evs hdesc hnot1 cv cevs hcwf hitems args (some (C09Found.fileText ls)) hnoc hmeta pm ports hpm hports hsp hcp p0 rest hfp t hch hsh hrc hrs hv hcomp hneg ps hres a hargs fk fks (by rw [C09Found.found13_fileText ls hls]; exact hfound) secrets hsec k hgen chk chiv cak caiv shk shiv sak saiv hk cls hcls h1 h2 h3 h4 hsc hss hokc hoks hwr hlen hwires hcausal hcport hsport hpmv hbytes hrec hus hothers
+
+end
+
+section
+open TLX.Spec.Demux TLX.Lemmas.MainLoop TLX.Spec.TlsCapture
+
+/-! ### a sufficient condition for `OthersFit`: the loop ignores everything else -/
+
+/-- the main loop ignores the packet (not TCP/UDP over IP, a TCP segment without payload, an empty or — without `-g` — a
+    non-QUIC UDP datagram, …) -/
+def Ignored (o : Opts) (e : CapEv) : Prop :=
+  ∀ tag, ∃ w, (classify o (.frame (pktOf tag e.d)) : Class Keylog.Key) = .ignore w
+
+theorem tcpView_ignored (o : Opts) (p : Pkt) (w : Why)
+    (h : (classify o (.frame p) : Class Keylog.Key) = .ignore w) :
+    Spec.Demux.tcpView o [(.frame p : MainLoop.Item Keylog.Key)] = [] := by
+  simp [Spec.Demux.tcpView, h]
+
+theorem quicView_skip (o : Opts) (kl : List Keylog.Key) (it : MainLoop.Item Keylog.Key)
+    (rest : List (MainLoop.Item Keylog.Key))
+    (h : (∃ p, classify o it = .tls p) ∨ (∃ w, classify o it = .ignore w)) :
+    quicView o kl (it :: rest) = quicView o kl rest := by
+  rcases h with ⟨p, hp⟩ | ⟨w, hw⟩
+  · simp only [quicView, hp]
+  · simp only [quicView, hw]
+
+theorem classify_tcp (o : Opts) (p : Pkt) (h : p.l4 = .tcp) :
+    (∃ q, (classify o (.frame p) : Class Keylog.Key) = .tls q) ∨
+      (∃ w, (classify o (.frame p) : Class Keylog.Key) = .ignore w) := by
+  simp only [classify, h]
+  split
+  · exact .inr ⟨_, rfl⟩
+  · split
+    · exact .inr ⟨_, rfl⟩
+    · exact .inl ⟨_, rfl⟩
+
+theorem views_of_ignored (fl : Flow) (o : Opts) (hc : o.checksumTest = false) (kl : List Keylog.Key) (evs : List CEv)
+    (hd : Described fl evs) (hign : ∀ e, CEv.foreign e ∈ evs → Ignored o e) (n : Nat) :
+    Spec.Demux.tcpView o (itemsFrom n (evs.map CEv.cap)) = flowPkts fl n evs ∧
+      quicView o kl (itemsFrom n (evs.map CEv.cap)) = [] := by
+  induction evs generalizing n with
+  | nil => exact ⟨rfl, rfl⟩
+  | cons ev rest ih =>
+    obtain ⟨i1, i2⟩ := ih (fun x hx => hd x (by simp [hx])) (fun e he => hign e (by simp [he])) (n + 1)
+    have hev := hd ev (by simp)
+    rw [List.map_cons, itemsFrom, tcpView_cons, i1]
+    cases ev with
+    | seg t d fr tcp =>
+      have hev : IsSeg fl d fr tcp := hev
+      have hp := pktOf_seg fl d fr tcp hev n
+      constructor
+      · rw [tcpView_frame o hc]
+        simp only [CEv.cap, hp, flowPkts]
+        by_cases hpl : tcp.payload = [] <;> simp [hpl]
+      · rw [quicView_skip o kl _ _ (classify_tcp o _ (by simp only [CEv.cap, hp])), i2]
+    | foreign e =>
+      obtain ⟨w, hw⟩ := hign e (by simp) n
+      constructor
+      · rw [show (CEv.foreign e).cap = e from rfl, tcpView_ignored o _ w hw]; rfl
+      · show quicView o kl (Item.frame (pktOf n e.d) :: _) = []
+        rw [quicView_skip o kl _ _ (.inr ⟨w, hw⟩), i2]
+
+theorem append3_self {α : Type} (pre blk post : List α) (h : blk = pre ++ blk ++ post) : pre = [] ∧ post = [] := by
+  have := congrArg List.length h
+  simp only [List.length_append] at this
+  exact ⟨List.eq_nil_of_length_eq_zero (by omega), List.eq_nil_of_length_eq_zero (by omega)⟩
+
+/-- **Nothing else is exported when the loop ignores everything else**: then `OthersFit` holds for the block of the
+    session of interest, whatever it is. -/
+theorem othersFit_of_ignored (mask : Quic.Dissect.MaskFn) (H : Crypto.Prims) (P : Cipher.Prims) (args : Args)
+    (keyFile : Option Keylog.Str) (fl : Flow) (evs : List CEv) (hd : Described fl evs)
+    (hnoc : args.checksumTest = false)
+    (pm : List (Int × Int)) (ports : List Int)
+    (hpm : Options.getPortMap Options.Src.bare args.mArg = .ok pm)
+    (hports : Options.serverPorts Options.Src.builtin Options.Src.pDefault args.pArg = .ok ports)
+    (hign : ∀ e, CEv.foreign e ∈ evs → Ignored (optsOf args ports pm) e)
+    (p0 : Pkt) (rest : List Pkt) (hfp : flowPkts fl 0 evs = p0 :: rest)
+    (hcand : candidate (optsOf args ports pm) p0 = true) (blk : List Pipeline.OutPkt)
+    (hsess : Pipeline.connOut H P (capInfo (evs.map CEv.cap))
+      (sessionOf (evs.map CEv.cap) (optsOf args ports pm) p0 rest) ((fileKeysOf keyFile).getD []) = some blk) :
+    OthersFit mask H P args keyFile (evs.map CEv.cap) blk := by
+  intro out pre post hout hsplit
+  obtain ⟨hv1, hv2⟩ := views_of_ignored fl (optsOf args ports pm) hnoc ((fileKeysOf keyFile).getD []) evs hd hign 0
+  have hF := flow_filter fl (optsOf args ports pm) hnoc evs hd 0
+  rw [hv1] at hF
+  have hall : ∀ x ∈ flowPkts fl 0 evs, sameFlow (refPkt fl) x = true := by
+    intro x hx
+    have : x ∈ (flowPkts fl 0 evs).filter (sameFlow (refPkt fl)) := by rw [hF]; exact hx
+    exact (List.mem_filter.mp this).2
+  have hfr := framesFrom_eq mask H P args (fileKeysOf keyFile) (itemsFrom 0 (evs.map CEv.cap)) (capInfo (evs.map CEv.cap))
+    pm ports hpm hports
+  rw [C18.fresh_run_is, hv1, hv2, dsbKeys_itemsFrom, List.append_nil,
+    C04.tls_alone_is_run _ _ (refPkt fl) _ hall, hfp] at hfr
+  simp only [alone, hcand, if_true, Option.toList, quicRun, List.foldl_nil, List.flatMap_nil, List.append_nil,
+    List.flatMap_cons, feedAll_tls, sessionOf_eq] at hfr
+  have hTM : (Pipeline.tlsMachine H P (capInfo (evs.map CEv.cap))).out
+      (sessionOf (evs.map CEv.cap) (optsOf args ports pm) p0 rest) ((fileKeysOf keyFile).getD []) = blk := by
+    show (Pipeline.connOut H P _ _ _).getD [] = blk
+    rw [hsess]; rfl
+  rw [hTM] at hfr
+  rw [hfr] at hout
+  cases hout
+  obtain ⟨h1, h2⟩ := append3_self pre blk post hsplit
+  subst h1; subst h2
+  intro x hx; cases hx
 
 end
 
